@@ -89,7 +89,8 @@ def body_hist(cube, **kw):
     return ''
 
 
-EPS = [[], [(0, ['a'])], [(0, ['a', 'nosuchstep']), (1, ['c'])], [(1, ['b', 'c']), (0, ['d'])], [(0, ['nosuchstep'])]]
+EPS = [[], [(0, ['a'])], [(0, ['a', 'nosuchstep']), (1, ['c'])], [(1, ['b', 'c']), (0, ['d'])], [(0, ['nosuchstep'])],
+       [(0, ['nosuchstep', 'a', 'c']), (1, ['nosuchstep', 'b'])]]
 
 
 def body_attach(cube, **kw):
@@ -101,6 +102,7 @@ def body_attach(cube, **kw):
     from xh.rt import reclimit
     e0, e1 = idx(kw['e0'], len(EPS)), idx(kw['e1'], len(EPS) + 1)
     link, twice = bool(kw['l']), bool(kw['tw'])
+    second = bool(kw['second']) if 'second' in kw else False
     with notrace(), reclimit():
         lg, lcf = langs.build_lang(L_MINI())
         m, A = mb.build_model(lcf, ['N', 'N'], names=['x', 'y:1'])
@@ -117,6 +119,8 @@ def body_attach(cube, **kw):
                     t.add_entry_point(A[ai], st)
             want.append(('att%d' % k, sorted('%s:%s' % (A[ai].name, st) for (ai, steps) in EPS[e] for st in steps if st != 'nosuchstep')))
         g = AttackGraph(lg, m)
+        if second:
+            other = AttackGraph(lg, m)          # a later graph generated from the same model must not interfere
         g.attach_attackers()
         if twice:
             g.regenerate_graph()
@@ -165,11 +169,11 @@ def queries(tier):
                   'AttackGraphNode.undo_compromise', 'AttackGraph.remove_attacker', 'AttackGraph.add_attacker',
                   'AttackGraph.attach_attackers'],
     ))
-    ps = [I('e0', 0, len(EPS) - 1), I('e1', 0, len(EPS)), B('l'), B('tw')]
+    ps = [I('e0', 0, len(EPS) - 1), I('e1', 0, len(EPS)), B('l'), B('tw'), B('second')]
     qs.append(Query(name='attach', body=body_attach, params=ps, timeout=400,
-                    witnesses=[({}, {'e0': 2, 'e1': 3, 'l': True, 'tw': True})],
+                    witnesses=[({}, {'e0': 2, 'e1': 3, 'l': True, 'tw': True, 'second': True})],
                     bound='graph generated from a 2-asset L_MINI model with one or two model attackers whose entry points range over %s '
-                          '(incl. a step that does not exist, several steps per asset, several assets); attach once or after a regeneration' % EPS))
+                          '(incl. a step that does not exist, several steps per asset, several assets); attach once or after a regeneration, with or without a second graph generated from the same model in between' % EPS))
     return qs
 
 
